@@ -103,6 +103,7 @@ int main(int argc, char **argv) {
       if (dnp != g.npoints) rep.count("point_count_changed_by_encoding");
       if (dnf != g.faces.size()) rep.count("face_count_changed_by_encoding");
       rep.held(vf::HashBytes(er.bytes.data(), er.bytes.size()), dnp > 0);
+      if (r.below(300) == 0) rep.sample("{\"case\":\"" + vf::JsonEscape(desc) + "\",\"reported_points\":" + std::to_string(er.num_points) + ",\"reported_faces\":" + std::to_string(er.num_faces) + ",\"decoded_points\":" + std::to_string(dnp) + ",\"decoded_faces\":" + std::to_string(dnf) + "}");
       return;
     }
     // ---- C01 oracle ------------------------------------------------------------------
